@@ -32,20 +32,20 @@ func Profile() *world.Profile {
 		Envs:    []int{1, 2},
 		MaxActs: 4, NextMax: 3, RetW: []int{3, 2, 1},
 		PanicPm: 120, MissingPm: 120, BadStatus: 40, WFaultPm: 40, CancelPm: 150, DeadlinePm: 100, FaultFree: 300,
-		TwinMethodPm: 300, WrapperPm: 300, RegVariantsPm: 250, AutoHeadPm: 300,
+		TwinMethodPm: 300, WrapperPm: 300, RegVariantsPm: 250, AutoHeadPm: 300, BeforesPm: 200,
 		MinTasks: 1, MaxTasks: 3, MinReqs: 2, MaxReqs: 6,
 		HotPm: 200, HostilePm: 120,
 		Methods: []string{"GET", "HEAD"}, MethodW: []int{5, 1},
 		ExtraPm: 0, KnownChain: true,
 	}
-	p.Shapes = make([]int, 16)
+	p.Shapes = make([]int, 24)
 	for i, w := range map[int]int{world.ShCtx: 8, world.ShHTTP: 1, world.ShCtxTok: 2, world.ShCtxReqTok: 1, world.ShCtxStr: 3, world.ShCtxBytes: 1,
-		world.ShCtxErr: 2, world.ShCtxIntStr: 2, world.ShCtxIntErr: 1, world.ShCtxStrErr: 1, world.ShTeapot: 1, world.ShLogger: 1, world.ShRWReqTok: 1} {
+		world.ShCtxErr: 2, world.ShCtxIntStr: 2, world.ShCtxIntErr: 1, world.ShCtxStrErr: 1, world.ShTeapot: 1, world.ShLogger: 1, world.ShRWReqTok: 1, world.ShInjector: 1, world.ShUserFast: 1, world.ShCtxPtrStr: 1} {
 		p.Shapes[i] = w
 	}
 	p.Ops = make([]int, world.NumOps)
 	for i, w := range map[int]int{world.OpYield: 2, world.OpWriteHeader: 2, world.OpWrite: 2, world.OpFlush: 1, world.OpNext: 5, world.OpNextSwallow: 1,
-		world.OpCancel: 2, world.OpSetHeader: 1, world.OpStatus: 1, world.OpBefore: 1, world.OpReplaceCtx: 1, world.OpExpireCtx: 1, world.OpMapOwnWriter: 1, world.OpRedirect: 1, world.OpHTTPError: 1, world.OpCopy: 2, world.OpMapRH: 1} {
+		world.OpCancel: 2, world.OpSetHeader: 1, world.OpStatus: 1, world.OpBefore: 1, world.OpReplaceCtx: 1, world.OpExpireCtx: 1, world.OpMapOwnWriter: 1, world.OpRedirect: 1, world.OpHTTPError: 1, world.OpCopy: 2, world.OpMapRH: 1, world.OpCookie: 1} {
 		p.Ops[i] = w
 	}
 	return p
@@ -215,6 +215,22 @@ func (Engine) Run(t *tape.Tape, o eng.Opts) *eng.Result {
 		}
 		full, ok := w.Full[q.Chain]
 		if !ok {
+			continue
+		}
+		stopped := false
+		for _, e := range q.Events {
+			if e.K == world.EvNote && e.S == "stopped-by-before-handler" {
+				stopped = true
+			}
+		}
+		if stopped {
+			// a Flame.Before handler returned true: nothing of the chain may run
+			for _, e := range q.Events {
+				if e.K == world.EvEnter {
+					viol("before-handler-ignored", "request "+q.Line()+": a Before handler ended the request, yet handler "+name(int(e.H))+" ran\n  trace: "+q.Trace(), nil)
+				}
+			}
+			res.Probes["stopped_by_before_handler"]++
 			continue
 		}
 		for _, f := range Accept(q, full, name) {
